@@ -287,6 +287,12 @@ func (c *Cluster) fetch(b *Broker, r *Req, done func(rc.Msg)) {
 					}
 					recs = append(recs, e...)
 				}
+				if c.ForceRecordSetLimit > 0 && len(recs) > c.ForceRecordSetLimit {
+					// a broker that cuts the record set wherever the limit falls,
+					// even inside the first header (old brokers given a small
+					// limit; kafka-go's Conn never asks for one that small)
+					recs = recs[:c.ForceRecordSetLimit]
+				}
 				if len(recs) > 0 {
 					first = false
 				}
